@@ -437,3 +437,13 @@
               (<= 0 m) (<= m n))
          (<= (nfsum L lo W wo wn M mo m) (nfsum L lo W wo wn M mo n)))
      :pattern ((nfsum L lo W wo wn M mo m) (nfsum L lo W wo wn M mo n)))))
+; a sum over non-negative weights is at least any one of its terms (explicit lemma instance)
+;@sig lem_psum_elem : row rowz asg int int -> bool
+(declare-fun lem_psum_elem ((Array Int Int) Int (Array Int Int) Int Bool (Array Int Bool) Int Int) Bool)
+;@lemma psum_elem
+(assert (forall ((L (Array Int Int)) (lo Int) (W (Array Int Int)) (wo Int) (wn Bool) (A (Array Int Bool)) (n Int) (j Int))
+  (! (and (lem_psum_elem L lo W wo wn A n j)
+      (=> (and (or wn (forall ((i Int)) (! (=> (and (<= wo i) (< i (+ wo n))) (>= (select W i) 0)) :pattern ((select W i)))))
+               (<= 0 j) (< j n))
+          (>= (psum L lo W wo wn A n) (pterm (select L (+ lo j)) (ite wn 1 (select W (+ wo j))) A))))
+     :pattern ((lem_psum_elem L lo W wo wn A n j)))))
